@@ -201,6 +201,29 @@ def _case(rep, drv, rnd, i, tier):
         sys.setrecursionlimit(max(sys.getrecursionlimit(), 1000))
     answers, ending, bound = res[1], res[2], res[3]
     bad = None
+    if raise_at is not None and nested is None and fam not in ('bind-then-deep',):
+        # the engine is used again after a call whose projection raised: an endless search is still cut off
+        eng.load([c for c in FAMILIES['nat'] if not any(d_[0] == 'nat' for d_ in prog)] or [('dummy2', [], 'tru')], overwrite=False)
+        try:
+            eng.evaluate_bounded(rnd.choice([100, 150, 220]), 'nat', [[Sym('v'), 55]], None)
+        except RecursionError:
+            rep.violation(dict(payload, kind='RecursionError escaped from an evaluate_bounded that follows one whose projection raised'))
+            return
+        finally:
+            sys.setrecursionlimit(max(sys.getrecursionlimit(), 1000))
+    if i % 9 == 4:
+        # a process that runs with a large recursion limit gets it back
+        sys.setrecursionlimit(12000)
+        try:
+            eng.evaluate_bounded(150, name, args, None)
+            back = sys.getrecursionlimit()
+        except RecursionError:
+            back = -1
+        finally:
+            sys.setrecursionlimit(1000)
+        if back != 12000:
+            rep.violation(dict(payload, kind='recursion limit 12000 not restored: %d afterwards' % back))
+            return
     if lim0 != lim1:
         bad = 'recursion limit not restored: %d -> %d' % (lim0, lim1)
     elif nested is not None and any(a != b for (_, (a, b)) in nested[3]):
